@@ -6,7 +6,8 @@ import MwVerif.Model.SingleCol
 Reply: the new rows separated by ` / `, their cells by ` | `, children as ids.
 
 `unpack <0|1>;<field>;…` (a one-column table taken apart, `Model/SingleCol.lean`): a field is `C <ids>` (a caption and its
-children), `R` (a row starts) or `c <ids>` (a cell of the row that started last).  Reply: `D( ids )` per `Div`, bare ids otherwise. -/
+children), `R` (a row starts) or `c <ids>` (a cell of the row that started last).  Reply: `D( ids )` per `Div`, bare ids otherwise.
+`columns <numcols>;<field>;…`: the same table laid out column by column; reply: the ids. -/
 namespace MwVerif.Driver.SplitRow
 open MwVerif.SplitRow MwVerif.Driver
 
@@ -45,6 +46,10 @@ def step (line : String) : String :=
     | none => "bad-op"
   | "unpack", w :: fs =>
     " ".intercalate ((SingleCol.unpack (w.trimAscii.toString == "1") (fs.foldl addField [])).map showOut)
+  | "columns", n :: fs =>
+    match n.trimAscii.toString.toNat? with
+    | some k => " ".intercalate ((SingleCol.linearize k (fs.foldl addField [])).map toString)
+    | none => "bad-op"
   | _, _ => "bad-op"
 
 end MwVerif.Driver.SplitRow
